@@ -20,6 +20,7 @@ import NeoModel.Proofs.CodecFixedInv
 import NeoModel.Proofs.CodecUintInv
 import NeoModel.Proofs.CodecConsts
 import NeoModel.Proofs.CodecKeysMisc
+import NeoModel.Proofs.CodecPow10
 namespace NeoModel.Codec
 variable {Sig Key : Type}
 
@@ -284,6 +285,14 @@ theorem decimal_too_many_digits_rejected (P0 p1 : Bytes) (p : Nat) (z : Int)
 
 example : decFromString ([49] ++ chDot :: [49, 50, 51]) 2 = none :=   -- "1.123" with precision 2
   decimal_too_many_digits_rejected [49] [49, 50, 51] 2 1 (by decide) (by decide) (by decide)
+
+/-- C18 (decimals, the precomputed table): `pow10` as written — a 17-entry table for `n ≤ 16`, a FRESH
+product `table[16]·table[1]·table[1]…` above — is `10^n` for every `n`, and being a function of `n` and of
+the (never written) table it returns the same value however often and in whatever order it is called. -/
+theorem decimal_pow10 (n : Nat) : pow10M n = (10 : Int) ^ n ∧ pow10Table.length = maxAllowedPrecision + 1 :=
+  ⟨pow10M_eq n, pow10_table_size.2⟩
+
+example : pow10M 16 = 10 ^ 16 ∧ pow10M 17 = 10 ^ 17 ∧ pow10M 40 = 10 ^ 40 := by decide
 
 /-- C18 (decimals, accepted language): `FromString` accepts exactly `[+-]?digits`, optionally
 followed by `.` and `[+-]?digits` of at most `precision` characters, and returns
